@@ -45,7 +45,7 @@ TABLE_NAMES = ["t/a", "select", "Mixed/Case_1", "x", "order/by", "group", "a/b/c
                "a_b", "T1/t_2", "pragma", "rowid/oid", "u__v"]
 FIELD_TYPES = {
     "s": "string", "n": "varint", "f": "float", "b": "bytes", "t": "datetime", "p": "path", "ip": "net.ipaddress", "select": "string", "Order": "varint",
-    "fs": "filesize", "from": "string", "pid": "varint", "name": "string", "pidvarintname": "string", "group": "varint", "Key": "bytes", "flag": "boolean", "u": "uri", "w": "uint32", "class": "float", "values": "datetime",
+    "fs": "filesize", "from": "string", "pid": "varint", "name": "string", "pidvarintname": "string", "tags": "string[]", "nums": "varint[]", "group": "varint", "Key": "bytes", "flag": "boolean", "u": "uri", "w": "uint32", "class": "float", "values": "datetime",
 }  # fmt: skip
 SQL_KEYWORDS = {"select", "order/by", "group", "table", "index/from", "from", "Order", "values"}
 
@@ -83,6 +83,10 @@ def gen_sql_value(rng, typ):
         return rng.choice(["http://x/y?z=1", "file:///etc"])
     if typ == "uint32":
         return rng.choice([0, 1, 2**32 - 1, 65536])
+    if typ == "string[]":
+        return {"$l": [rng.choice(["a", "b c", ""]) for _ in range(rng.choice([0, 0, 1, 2]))]}
+    if typ == "varint[]":
+        return {"$l": [rng.choice([0, 1, -5]) for _ in range(rng.choice([0, 0, 1, 3]))]}
     raise ValueError(typ)
 
 
@@ -170,6 +174,11 @@ def generate(rng, tier, index):
 # -- expected raw SQL cells (independent of the adapter) ------------------------------------------
 def sql_cell(typ, value, rec, fname):
     """What an independent sqlite3 connection should read for this field."""
+    if typ.endswith("[]"):
+        # an unset typed list defaults to the empty list (stored as the text "[]") - except in record types that have a
+        # Python keyword as field name, whose generic constructor keeps None
+        v = getattr(rec, fname)
+        return None if v is None else str(v)
     if value is None:
         return None
     v = dec_value(value)
